@@ -379,6 +379,63 @@ func pickValue(r *rand.Rand, have uint64, recv uint64, big bool, mayFail bool, w
 	}
 }
 
+// forcedTx: one single-transfer transaction of a scripted block shape; value gets the actor's balance after the fee
+type forcedTx struct {
+	actor, sponsor, to string
+	value              func(have uint64) uint64
+}
+
+// drainRefillScript builds "A drained to exactly zero by one transaction, credited by a later transaction of the same
+// block" shapes.  A pays its own fee (its whole balance minus the fee leaves) or a separate sponsor pays (test auth).
+func drainRefillScript(r *rand.Rand, names []string, pre map[string]uint64, family string, margin uint64) []forcedTx {
+	if r.Intn(3) != 0 {
+		return nil
+	}
+	var as, bs []string
+	for _, n := range names {
+		if pre[n] > margin && pre[n] < 1<<29 {
+			as = append(as, n)
+		}
+		if pre[n] > 4*margin && pre[n] < 1<<62 {
+			bs = append(bs, n)
+		}
+	}
+	if len(as) == 0 || len(bs) == 0 {
+		return nil
+	}
+	a := as[r.Intn(len(as))]
+	b := bs[r.Intn(len(bs))]
+	if a == b {
+		if len(bs) < 2 {
+			return nil
+		}
+		for b == a {
+			b = bs[r.Intn(len(bs))]
+		}
+	}
+	sponsorFor := func(x string) string {
+		if family == "test" && r.Intn(2) == 0 {
+			return b // a separate (rich) sponsor: the drained account pays no fee
+		}
+		return x
+	}
+	whole := func(have uint64) uint64 { return have }
+	exact := pre[a]
+	fixed := func(v uint64) func(uint64) uint64 { return func(uint64) uint64 { return v } }
+	drain := forcedTx{actor: a, sponsor: sponsorFor(a), to: b, value: whole}
+	switch r.Intn(3) {
+	case 0: // drain, exact refill
+		return []forcedTx{drain, {actor: b, sponsor: b, to: a, value: fixed(exact)}}
+	case 1: // drain, refill with another amount, drain again, exact refill
+		other := exact/2 + margin + uint64(r.Intn(100))
+		return []forcedTx{drain, {actor: b, sponsor: b, to: a, value: fixed(other)},
+			{actor: a, sponsor: sponsorFor(a), to: b, value: whole}, {actor: b, sponsor: b, to: a, value: fixed(exact)}}
+	default: // drain, refill with another amount, drain again (stays empty)
+		other := exact/2 + margin + uint64(r.Intn(100))
+		return []forcedTx{drain, {actor: b, sponsor: b, to: a, value: fixed(other)}, {actor: a, sponsor: sponsorFor(a), to: b, value: whole}}
+	}
+}
+
 func TestVerifTransferBlocks(t *testing.T) {
 	outDir := os.Getenv("VERIF_OUT")
 	if outDir == "" {
@@ -480,10 +537,21 @@ func TestVerifTransferBlocks(t *testing.T) {
 				guess[k] = v
 			}
 			ntx := 1 + r.Intn(4)
+			// about a third of the blocks start with a scripted cross-transaction shape: one transaction drains an account
+			// to exactly zero (its record is deleted at block level), a later transaction of the same block pays it back
+			// exactly its pre-block balance (or another amount, after which it is drained again and then refilled exactly)
+			script := drainRefillScript(r, names, pre, family, 4*f0)
+			if len(script) > 0 {
+				ntx = len(script) + r.Intn(2)
+			}
 			var txs []*chain.Transaction
 			var recs []txRec
 			tries := 0
 			for i := 0; i < ntx; i++ {
+				var forced *forcedTx
+				if i < len(script) {
+					forced = &script[i]
+				}
 				tt := tTx{Actor: names[r.Intn(len(names))]}
 				for k := 0; k < 3 && guess[tt.Actor] == 0; k++ { // mostly actors that own something
 					tt.Actor = names[r.Intn(len(names))]
@@ -500,7 +568,14 @@ func TestVerifTransferBlocks(t *testing.T) {
 				if r.Intn(4) == 0 {
 					failAt = r.Intn(na)
 				}
+				if forced != nil {
+					tt.Actor, tt.Sponsor, na, failAt = forced.actor, forced.sponsor, 1, -1
+				}
 				for j := 0; j < na; j++ {
+					if forced != nil {
+						tt.Acts = append(tt.Acts, tAct{To: forced.to})
+						continue
+					}
 					a := tAct{To: names[r.Intn(len(names))]}
 					if r.Intn(4) == 0 {
 						a.To = tt.Actor // self-transfer
@@ -532,6 +607,9 @@ func TestVerifTransferBlocks(t *testing.T) {
 					a := &tt.Acts[j]
 					wholeOK := a.To == tt.Actor || j == len(tt.Acts)-1 || j+1 == failAt
 					a.Value = pickValue(r, g[tt.Actor], g[a.To], big, j == failAt, wholeOK)
+					if forced != nil {
+						a.Value = forced.value(g[tt.Actor])
+					}
 					if !big && a.Value >= 1<<30 {
 						a.Value = 1 << 20
 					}
@@ -553,6 +631,10 @@ func TestVerifTransferBlocks(t *testing.T) {
 					} else {
 						guess = g
 					}
+				} else if forced != nil {
+					script = nil // the scripted sponsor cannot pay: give the shape up, continue with random transactions
+					i--
+					continue
 				} else if tries++; tries < 40 && r.Intn(12) != 0 {
 					i-- // mostly avoid blocks that are invalid because a sponsor cannot pay
 					continue
